@@ -255,13 +255,14 @@ Definition sem_config (cfg : es_config) : bool :=
                      not_structural (obj_get k_type (snd fo))) (c_field_options cfg).
 
 (* ---------------------------------------------------------------- finite documents (for evaluation) *)
-(* an object given by the list of its true atoms and an association list of sub-objects *)
+(* an object given by the list of its true atoms (compared up to key order) and an association list of
+   sub-objects *)
 Inductive fdoc := FDoc (true_atoms : list json) (children : list (str * list fdoc)).
 
 Fixpoint doc_of (f : fdoc) : doc :=
   match f with
   | FDoc atoms kids =>
-      Doc (fun a => existsb (json_eqb a) atoms)
+      Doc (fun a => existsb (fun x => json_ceqb a x && json_ceqb x a) atoms)
           (fun p => (fix find (l : list (str * list fdoc)) : list doc :=
                        match l with
                        | [] => []
@@ -271,4 +272,43 @@ Fixpoint doc_of (f : fdoc) : doc :=
                                    match fs with [] => [] | x :: fs' => doc_of x :: conv fs' end) fs
                            else find l'
                        end) kids)
+  end.
+
+(* ---------------------------------------------------------------- guards used by the partial theorems *)
+(* no nested field is declared (then F8 and F17 cannot occur) *)
+Definition no_nested (cfg : es_config) : bool :=
+  match nested_paths cfg with [] => true | _ => false end.
+
+(* what kind of E-item the builder makes of a tree: an EMust, an EMustNot, or something else.  Parentheses,
+   boosts, ~ and (un-nested) fields are transparent for the builder: they hand the item up unchanged. *)
+Inductive ikind := IMust | IMustNot | IOther.
+Fixpoint item_kind (cfg : es_config) (t : item) : ikind :=
+  match t with
+  | Unary KPlus _ _ | Op KAnd _ _ => IMust
+  | Unary _ _ _ => IMustNot
+  | Op KUnknown _ _ => match c_default_operator cfg with DShould => IOther | _ => IMust end
+  | SearchField _ _ e | Grp _ _ e | Boost _ e _ _ => item_kind cfg e
+  | Fuzzy _ x _ _ | Proximity _ x _ _ => item_kind cfg x
+  | _ => IOther
+  end.
+
+(* not F6: every operand of a BoolOperation is +x / -x / NOT x, or something whose translation is
+   neither an EMust nor an EMustNot item, and is not itself a BoolOperation *)
+Definition bool_operand_ok (cfg : es_config) (c : item) : bool :=
+  match c with
+  | Unary _ _ _ => true
+  | Op KBool _ _ => false
+  | _ => match item_kind cfg c with IOther => true | _ => false end
+  end.
+
+Fixpoint bool_operands_plain (cfg : es_config) (t : item) : bool :=
+  match t with
+  | Term _ _ _ | NoneItem _ => true
+  | Range _ lo hi _ _ => bool_operands_plain cfg lo && bool_operands_plain cfg hi
+  | SearchField _ _ e | Grp _ _ e | Boost _ e _ _ => bool_operands_plain cfg e
+  | Fuzzy _ x _ _ | Proximity _ x _ _ => bool_operands_plain cfg x
+  | Unary _ _ a | ORange _ _ a _ => bool_operands_plain cfg a
+  | Op k _ ops =>
+      forallb (bool_operands_plain cfg) ops &&
+      match k with KBool => forallb (bool_operand_ok cfg) ops | _ => true end
   end.
